@@ -6,7 +6,10 @@ D: the property restated directly on those observables (BFS on the recorded work
 one sample per requested point, taken after the first k occupations with k/M >= p, ...).
 A case is a history of 1-3 runs of ONE experiment object; between runs the prototype network may be
 edited in place (edge/node added, edge removed) or replaced (setNetworkGenerator); tie and D are applied
-to every run against the network as it is at that run."""
+to every run against the network as it is at that run.
+The nodes are LABELLED 0..N-1; in about 30% of the networks they are not INSERTED in that order (shuffled
+insertion order, or the graph is built from its edge list and the isolated nodes are added afterwards), so
+that a node's label and its position in g.nodes() differ."""
 import itertools
 import json
 import math
@@ -59,6 +62,32 @@ def make_edges(rnd, n, kind):
     es = [e if rnd.random() < 0.5 else (e[1], e[0]) for e in es]
     rnd.shuffle(es)
     return es
+
+
+def node_order(rnd, n, es):
+    """how the nodes 0..n-1 get into the graph: None (in label order), an explicit insertion order, or
+    'edges' (networkx.Graph(edge list), the nodes the edges do not mention added afterwards)"""
+    t = rnd.randrange(10)
+    if t < 7 or n < 2:
+        return None
+    if t == 9:
+        return 'edges'
+    order = list(range(n))
+    while order == list(range(n)):
+        rnd.shuffle(order)
+    return order
+
+
+def build_graph(n, edges, order):
+    edges = [tuple(e) for e in edges]
+    if order == 'edges':
+        g = networkx.Graph(edges)
+        g.add_nodes_from(range(n))
+        return g
+    g = networkx.Graph()
+    g.add_nodes_from(order if order else range(n))
+    g.add_edges_from(edges)
+    return g
 
 
 def sample_points(samples):
@@ -119,8 +148,11 @@ class H(Harness):
     THOROUGH_N = 5000
     ALLOWED_AXIOMS = set()
     RULE = ('bond and site percolation on networks of 1-10 nodes labelled 0..N-1 (complete/path/star/cycle/empty/several clumps/'
-            'random/with self-loops, both edge orientations, shuffled insertion order) and rings with M = 6, 12, 24 elements; '
-            'samples = a count 1-25 (often) or 26-101 (linspace points as users pass them) or an explicit list (dyadic values, j/M, '
+            'random/with self-loops, both edge orientations, shuffled insertion order of the edges; in 30% of the networks the nodes are '
+            'inserted in a shuffled order or the graph is built from its edge list with the isolated nodes added afterwards, so that '
+            'label and position in g.nodes() differ) and rings with M = 6, 12, 24 elements; '
+            'samples = a count 1-25 (often) or 26-101 (linspace points as users pass them) or omitted (the default of 100 points) or an '
+            'explicit list, tuple or numpy array (dyadic values, j/M, '
             'j/M +- 2^-30, the binary64 neighbours of j/M (nextafter up/down), with and without 0 and 1, possibly more points than '
             'elements); a scripted shuffle per run; histories of 1-3 runs of one experiment object with in-place edits of the '
             'prototype (edge added/removed, node added) or setNetworkGenerator(other graph) between runs; all permutations of the '
@@ -137,9 +169,21 @@ class H(Harness):
                    'N < 2^31 (int32 array) and Python recursion depth suffices for rootOf']
 
     # ---------------------------------------------------------------- generation
-    def _mk(self, kind, n, es, samples, perm):
+    def _mk(self, kind, n, es, samples, perm, order=None, samples_as=None):
         """single-run case (also the format of older corpus files)"""
-        return {'kind': kind, 'n': n, 'edges': [list(e) for e in es], 'samples': samples, 'perm': list(perm)}
+        c = {'kind': kind, 'n': n, 'edges': [list(e) for e in es], 'samples': samples, 'perm': list(perm)}
+        if order:
+            c['order'] = order
+        if samples_as:
+            c['samples_as'] = samples_as
+        return c
+
+    @staticmethod
+    def _samples_as(rnd, samples):
+        """how the sample points are handed to the constructor: as they are, as a tuple, as a numpy array"""
+        if isinstance(samples, list) and rnd.randrange(3) == 0:
+            return rnd.choice(['tuple', 'array'])
+        return None
 
     @staticmethod
     def _runs(case):
@@ -190,11 +234,14 @@ class H(Harness):
             es = make_edges(rnd, nn, rnd.choice(self.GRAPH_KINDS))
         M = self._M(kind, nn, es)
         samples = self._points(rnd, M, nn <= 12)
+        samples_as = self._samples_as(rnd, samples)
+        if nn <= 12 and rnd.randrange(40) == 0:
+            samples, samples_as = 100, 'none'       # the constructor's default: samples is not passed
         if not floats_agree(M, sample_points(samples)):
             return None
         perm = list(range(M))
         rnd.shuffle(perm)
-        return self._mk(kind, nn, es, samples, perm)
+        return self._mk(kind, nn, es, samples, perm, node_order(rnd, nn, es), samples_as)
 
     def _gen_history(self, rnd):
         """2-3 runs of one experiment object, the prototype edited or replaced between them"""
@@ -202,6 +249,8 @@ class H(Harness):
         n = rnd.randrange(2, 9)
         es = make_edges(rnd, n, rnd.choice(self.GRAPH_KINDS))
         samples = self._points(rnd, self._M(kind, n, es), False)
+        samples_as = self._samples_as(rnd, samples)
+        order = node_order(rnd, n, es)
         pts = sample_points(samples)
         cur_n, cur = n, [tuple(e) for e in es]
         runs = []
@@ -227,13 +276,21 @@ class H(Harness):
                     cur_n = rnd.randrange(1, 9)
                     cur = [tuple(e) for e in make_edges(rnd, cur_n, rnd.choice(self.GRAPH_KINDS))]
                     edit = {'op': 'setgen', 'n': cur_n, 'edges': [list(e) for e in cur]}
+                    o2 = node_order(rnd, cur_n, cur)
+                    if o2:
+                        edit['order'] = o2
             M = self._M(kind, cur_n, cur)
             if not floats_agree(M, pts):
                 return None
             perm = list(range(M))
             rnd.shuffle(perm)
             runs.append({'edit': edit, 'perm': perm})
-        return {'kind': kind, 'n': n, 'edges': [list(e) for e in es], 'samples': samples, 'runs': runs}
+        c = {'kind': kind, 'n': n, 'edges': [list(e) for e in es], 'samples': samples, 'runs': runs}
+        if order:
+            c['order'] = order
+        if samples_as:
+            c['samples_as'] = samples_as
+        return c
 
     def gen_cases(self, tier, rnd, n):
         out = []
@@ -270,6 +327,22 @@ class H(Harness):
                         continue
                     for perm in itertools.permutations(range(M)):
                         out.append(self._mk(kind, nn, es, samples, perm))
+        # label and position in g.nodes() differ: all occupation orders of a path 1 - 0 - 2 inserted as 2, 0, 1 and of the
+        # path 3 - 1 - 0 - 2 built from its edge list (insertion order 3, 1, 0, 2)
+        for nn, es, order in [(3, [(2, 0), (0, 1)], [2, 0, 1]), (4, [(3, 1), (1, 0), (0, 2)], 'edges')]:
+            for kind in ('bond', 'site'):
+                M = self._M(kind, nn, es)
+                for samples in ([5, [0.25, 0.5]] if nn > 3 else [5, [0.25, 0.5], [0.0, 0.5], 2]):
+                    if not floats_agree(M, sample_points(samples)):
+                        continue
+                    for perm in itertools.permutations(range(M)):
+                        out.append(self._mk(kind, nn, es, samples, perm, order, 'tuple' if samples == [0.25, 0.5] else None))
+        # the constructor's default (samples not passed: 100 points) on rings
+        for M in (6, 12):
+            if floats_agree(M, sample_points(100)):
+                ring = [(i, (i + 1) % M) for i in range(M)]
+                for kind in ('bond', 'site'):
+                    out.append(self._mk(kind, M, ring, 100, [(5 * i + 2) % M for i in range(M)], None, 'none'))
         # linspace sample counts x rings with a highly divisible number of elements: the requested points
         # include binary64 neighbours of j/M (e.g. 11/33 computed by linspace lies one ulp above 1/3)
         hot = [34, 46, 67, 76, 91, 94]
@@ -289,9 +362,7 @@ class H(Harness):
     def execute(self, case):
         from epydemic import BondPercolation, SitePercolation
         kind = case['kind']
-        g = networkx.Graph()
-        g.add_nodes_from(range(case['n']))
-        g.add_edges_from([tuple(e) for e in case['edges']])
+        g = build_graph(case['n'], case['edges'], case.get('order'))
         rec = {}
         base = BondPercolation if kind == 'bond' else SitePercolation
 
@@ -323,12 +394,22 @@ class H(Harness):
                 return super().sample(p)
 
         samples = case['samples']
-        e = Rec(g, samples=samples if isinstance(samples, int) else list(samples))
+        sa = case.get('samples_as')
+        if sa == 'none':                 # the default of the constructor (the case records it as the count 100)
+            e = Rec(g)
+        elif sa == 'tuple':
+            e = Rec(g, samples=tuple(samples))
+        elif sa == 'array':
+            e = Rec(g, samples=numpy.array(samples, dtype=float))
+        else:
+            e = Rec(g, samples=samples if isinstance(samples, int) else list(samples))
         points = [float(x) for x in e._samplepoints]
         robs = []
         stats = {'cases_' + kind: 1, 'cases_with_several_runs': int(len(self._runs(case)) > 1),
                  'cases_samples_given_as_count': int(isinstance(samples, int)),
                  'cases_count_above_25': int(isinstance(samples, int) and samples > 25),
+                 'cases_samples_not_passed_default_100': int(sa == 'none'), 'cases_samples_given_as_tuple': int(sa == 'tuple'),
+                 'cases_samples_given_as_numpy_array': int(sa == 'array'), 'runs_nodes_not_inserted_in_label_order': 0,
                  'cases_without_0': int(len(points) > 0 and points[0] != 0.0),
                  'cases_without_1': int(len(points) > 0 and points[-1] != 1.0),
                  'generated_cases_dropped_float_boundary': case.get('_dropped', 0),
@@ -346,9 +427,7 @@ class H(Harness):
                     for b in ed['nbrs']:
                         g.add_edge(ed['node'], b)
                 elif ed['op'] == 'setgen':
-                    g = networkx.Graph()
-                    g.add_nodes_from(range(ed['n']))
-                    g.add_edges_from([tuple(x) for x in ed['edges']])
+                    g = build_graph(ed['n'], ed['edges'], ed.get('order'))
                     e.setNetworkGenerator(g)
                 stats['runs_after_setNetworkGenerator' if ed['op'] == 'setgen' else 'runs_after_inplace_edit'] += 1
             n = g.order()
@@ -371,13 +450,14 @@ class H(Harness):
             M = self._M(kind, n, proto_edges)
             stats['runs'] += 1; stats['samples_taken'] += len(rec['samples']); stats['occupations'] += len(rec['events'])
             stats['runs_raised'] += int(exc is not None); stats['runs_more_points_than_elements'] += int(len(points) > M)
+            stats['runs_nodes_not_inserted_in_label_order'] += int(proto_nodes != sorted(proto_nodes))
             robs.append({'exception': exc, 'n': n, 'perm': list(run['perm']),
                          'nodes0': rec['nodes0'], 'edges0': rec['edges0'], 'adj0': rec['adj0'], 'arg': rec['arg'],
                          'samples': rec['samples'], 'events': rec['events'], 'series': series,
                          'proto_same': (list(g.nodes()) == proto_nodes and list(g.edges()) == proto_edges
                                         and {u: list(g.neighbors(u)) for u in g.nodes()} == proto_adj),
                          'proto_nodes': proto_nodes, 'proto_edges': proto_edges,
-                         'proto_adj': [sorted(proto_adj[u]) for u in proto_nodes],
+                         'proto_adj': [sorted(proto_adj[u]) if u in proto_adj else None for u in range(n)],    # keyed by LABEL, as adj0
                          'shuffles': [list(s[1]) for s in orc.values('shuffle')]})
             if exc is not None:
                 break
@@ -403,8 +483,8 @@ class H(Harness):
                                                                   'samples_taken': [s['p'] for s in obs['samples']]}}]
         if not obs['proto_same']:
             v.append({'signature': 'prototype-modified', 'detail': None})
-        if obs['proto_nodes'] != list(range(n)):
-            return v          # outside the quantifier of the property (nodes labelled 0..N-1)
+        if sorted(obs['proto_nodes']) != list(range(n)):
+            return v          # outside the quantifier of the property (nodes labelled 0..N-1, inserted in any order)
         # the working copy is a copy of the prototype as it is now; the occupation order is its shuffled element list
         proto_e = {norm(e) for e in obs['proto_edges']}
         base = sorted(proto_e) if kind == 'bond' else list(range(n))
@@ -473,11 +553,13 @@ class H(Harness):
         raised = bool(obs['exception']) or obs['arg'] is None or obs['nodes0'] is None
         ok_shuffle = len(obs.get('shuffles', [])) == 1 and obs['shuffles'][0] == obs['perm']
         # the model is run on the prototype as the harness knows it at this run (node order, g.edges() order and
-        # neighbour order of a networkx copy are those of the original)
+        # neighbour order of a networkx copy are those of the original).  The nodes are labelled 0..N-1 but need not
+        # be inserted in that order: c_nodes carries the insertion order, c_adj and the component array are keyed by
+        # label (the guard nodes_ok of the theorems, In n nodes <-> n < length nodes, is about labels only)
         same_copy = (not raised and obs['nodes0'] == obs['proto_nodes']
                      and sorted(norm(e) for e in obs['edges0']) == sorted(norm(e) for e in obs['proto_edges'])
                      and [sorted(a) if a is not None else None for a in obs['adj0']] == obs['proto_adj'])
-        if raised or not ok_shuffle or not same_copy or obs['proto_nodes'] != list(range(obs['n'])):
+        if raised or not ok_shuffle or not same_copy or sorted(obs['proto_nodes']) != list(range(obs['n'])):
             # the model never raises, always uses the scripted shuffle once and works on a copy of the current
             # prototype: an observation that cannot match
             return ('{| c_site := %s; c_nodes := []; c_edges := []; c_adj := []; c_perm := []; c_ps := []; o_raised := true; '
